@@ -270,8 +270,12 @@ def k1_lifecycle(kind: int, keep: bool, xsel: int, mis: int) -> bool:
 
 # ----------------------------------------------------------------------------- K2: --keep reports the path
 
-def _pre_k2(kind: int) -> bool:
+def _pre_k2(kind: int, opt: int) -> bool:
     from harness import C01
+    if not (0 <= opt <= 2):
+        return False
+    if ob.case().get('keep_only') and opt != 1:
+        return False
     n, cells, cat = _fault_catalogue()
     fam, idx = cat[ob.case()['fault']]
     if idx >= 0:
@@ -281,20 +285,25 @@ def _pre_k2(kind: int) -> bool:
     return kind == 0 and idx == -1
 
 
-def k2_keep_reports_path(kind: int) -> bool:
+def k2_keep_reports_path(kind: int, opt: int) -> bool:
     """
-    pre: _pre_k2(kind)
+    pre: _pre_k2(kind, opt)
     post: _
     """
     from harness import C02
     bug = ob.case().get('oracle_bug')
-    # the real standalone Processor.process with the --keep reporter (C02's chain), status PASS, accessor ok
-    rc, stdout, stderr, f = C02.run_chain(ob.case()['fault'], kind, 0, 1, 0, 0)
+    # the real standalone Processor.process with the reporter of every output mode (C02's chain; opt: 0 = default,
+    # 1 = --keep, 2 = --act), status PASS, accessor ok: the reporter decides whether the executor keeps the sandbox
+    rc, stdout, stderr, f = C02.run_chain(ob.case()['fault'], kind, 0, opt, 0, 0)
     e = C02.expected_chain(f)
     if e['sandbox'] != bool(f['roots']):
         return False
+    keep = C02.OPTIONS[f['opt']] == 'keep'
     if not f['roots']:
-        return ob.post(stdout == '' if not bug else stdout != '')
+        return ob.post(((stdout == '') if not bug else (stdout != '')) if keep else True)
+    if not keep:
+        # no --keep: the sandbox is removed however execution ended, and its path is not what is printed
+        return ob.post(not f['kept'][0] and f['roots'][0] not in stdout)
     # the sandbox is left intact and its path is the only thing on stdout, however execution ended
     return ob.post(f['kept'][0] and stdout == f['roots'][0] + '\n')
 
@@ -474,13 +483,17 @@ def obligations(tier: str) -> List[Ob]:
             continue
         obs.append(Ob(
             name='K2:keep-path:%s' % fam, fn='k2_keep_reports_path', case=dict(fault=i), kernel='K2', selector=True,
-            bound='stub case with 1 instruction per phase; execution ends at %s with every applicable kind; --keep' % (
+            bound='stub case with 1 instruction per phase; execution ends at %s with every applicable kind; output modes default / '
+                  '--keep / --act: the sandbox is left (and its path printed) iff --keep' % (
                 'the end' if idx == -1 else 'cleanup main' if idx == -2 else '%s/%s' % cells[idx][0][:2]),
             timeout=600, real=REAL + ('exactly_lib.processing.standalone.processor.Processor.process',
-                                      'exactly_lib.processing.standalone.result_reporting._ResultReporterForPreserveAndPrintSandboxDir'),
+                                      'exactly_lib.processing.standalone.result_reporting._ResultReporterForPreserveAndPrintSandboxDir',
+                                      'exactly_lib.processing.standalone.result_reporting._ResultReporterForActPhaseOutput',
+                                      'exactly_lib.processing.standalone.result_reporting._ResultReporterForNormalOutput',
+                                      'exactly_lib.processing.standalone.processor.Processor._processor'),
             stubs=('stub instructions / actor', 'stub Accessor', 'in-memory stdout/stderr', 'deterministic sandbox resolver'),
-            entry='standalone.processor.Processor.process with ReportingOption.SANDBOX_DIRECTORY_STRUCTURE_ROOT'))
-    obs.append(Ob(name='K2:seeded-oracle-error', fn='k2_keep_reports_path', case=dict(fault=1, oracle_bug=True), kernel='K2',
+            entry='standalone.processor.Processor.process with every ReportingOption'))
+    obs.append(Ob(name='K2:seeded-oracle-error', fn='k2_keep_reports_path', case=dict(fault=1, oracle_bug=True, keep_only=True), kernel='K2',
                   bound='seeded: oracle expects a path although no sandbox exists', timeout=300, expect=ob.REFUTE))
     for i, (fam, idx) in enumerate(cat):
         obs.append(Ob(
